@@ -29,6 +29,9 @@ type shCase struct {
 	Shape    gen.Shape `json:"shape"`
 	Idx      uint32    `json:"idx"`
 	HashType uint8     `json:"hash_type"`
+	// NilInput: tx.Inputs holds a nil pointer at the requested index (a list made with
+	// make([]*bt.Input, n) and not filled completely): the input does not exist
+	NilInput bool `json:"nil_input,omitempty"`
 }
 
 func shTestdata() string {
@@ -221,6 +224,21 @@ func shJudge(c *mon.Ctx, in *shCase, legacy bool) {
 		_ = frame
 	})
 	flag := sighash.Flag(in.HashType)
+	if in.NilInput {
+		if int(in.Idx) >= len(tx.Inputs) {
+			return
+		}
+		tx.Inputs[in.Idx] = nil
+		c.Count("err-class:nil-input-at-index")
+		var e1, e2 error
+		if c.Try(preName, func() { _, e1 = preCall(tx, in.Idx, flag) }) && e1 == nil && !legacy {
+			c.Violationf(P+":no-error:nil-input-at-index", "%s returned no error for an index whose slot in tx.Inputs is nil", preName)
+		}
+		if c.Try("bt.(*Tx).CalcInputSignatureHash", func() { _, e2 = tx.CalcInputSignatureHash(in.Idx, flag) }) && e2 == nil && !legacy {
+			c.Violationf(P+":no-error:nil-input-at-index", "CalcInputSignatureHash returned no error for an index whose slot in tx.Inputs is nil")
+		}
+		return
+	}
 	var snap0 []byte
 	if !c.Try("bt.(*Tx).ExtendedBytes", func() { snap0 = shSnapshot(tx) }) {
 		return
@@ -623,6 +641,14 @@ func shRun(c *mon.Ctx, prop string, forkid bool, judge func(*mon.Ctx, *shCase)) 
 				s.OneObject = true
 				for idx := 0; idx < ni; idx++ {
 					judge(c, &shCase{Shape: *s, Idx: uint32(idx), HashType: t})
+				}
+				judge(c, &shCase{Shape: *s, Idx: uint32(n) % uint32(ni), HashType: t, NilInput: true})
+				// one *bt.Input object listed twice (first and last position)
+				d := *s
+				d.Ins = append(append([]gen.In{}, s.Ins...), s.Ins[0])
+				d.SameInputTwice = true
+				for _, idx := range []int{0, 1, len(d.Ins) - 1} {
+					judge(c, &shCase{Shape: d, Idx: uint32(idx), HashType: t})
 				}
 			}
 		}
